@@ -181,7 +181,7 @@ def _body(r) -> list:
 
 @st.composite
 def cases(draw):
-    r = draw(st.randoms(use_true_random=False))
+    r = core.rng(draw)
     mode = r.choice(["render", "render", "render_with", "render_for", "macro", "macro"])
     args = [[k, r.choice(["A1", "A2"])] for k in r.sample(NAMES, r.choice([0, 1, 2]))]
     alias = r.choice(NAMES)
